@@ -1,22 +1,30 @@
 (* Proofs/ServerFrameProofs.v — proofs for C04 / C06 about Model/ServerFrame.v. *)
 From GoImap.Base Require Import Bytes.
 From GoImap.Model Require Import NumSet MatchList Utf7 Wire ServerConn ServerFrame.
-From GoImap.Proofs Require Import ServerFrameSpec.
+From GoImap.Proofs Require Import NumSetText WireSpec WireLemmas WireProofs ServerFrameSpec ServerFrameLemmas.
+From Coq Require Import ZifyN ZifyNat ZifyBool.
 Open Scope N_scope.
 
 (* C04 — framing.  For every sequence of well-formed commands of the covered family, whatever
-   bytes their literal payloads contain (CRLF, command-like text with tags of its own), in any
+   bytes their literal payloads contain (CRLF, command-like text with tags of its own), in any non-logout
    connection state and with or without LITERAL+: the server starts parsing a command exactly
    at the offsets where the client's commands start (never inside a literal), answers the
    commands' own tags in order, and every string reaching the backend is an argument the
    client wrote (possibly INBOX-folded / UTF-7 decoded) — until the first command that makes
    it close the connection (a refused non-synchronising literal). *)
-Lemma frames_agree : forall cfg st0 cs, forallb wf_cmd cs = true ->
+Lemma frames_agree : forall cfg st0 cs, st0 <> SLogout -> forallb wf_cmd cs = true ->
   let f := run_stream cfg st0 (render cs) in
   rev (fs_starts f) = starts_from 0 cs /\
   out_tags (rev (fs_out f)) = tags_upto cs /\
   (forall k s, In k (fs_calls f) -> In s (call_strings k) -> In s (arg_values cs)).
-Admitted.
+Proof.
+  intros cfg st0 cs Hst Hwf f. unfold run_stream in f.
+  destruct (serve_wf cs cfg (S (length (render cs))) (mkF (mkConn st0 false) [] [] [])
+              (N.of_nat (length (render cs))) Hwf Hst) as (A1 & A2 & A3); [lia|lia|].
+  fold f in A1, A2, A3. cbn [fs_starts fs_out fs_calls rev app out_tags flat_map] in A1, A2, A3.
+  rewrite N.sub_diag in A1. split; [exact A1|]. split; [exact A2|].
+  intros k s Hk Hs. destruct (A3 k Hk) as [[]|H]. auto.
+Qed.
 
 (* C04 — one completion per command, for EVERY byte stream: each command start yields at most
    one tagged response and all but possibly the last start yield exactly one *)
@@ -25,7 +33,14 @@ Lemma one_completion : forall cfg st0 s,
   let f := run_stream cfg st0 s in
   (length (filter is_tagged (fs_out f)) <= length (fs_starts f))%nat /\
   (length (fs_starts f) <= S (length (filter is_tagged (fs_out f))))%nat.
-Admitted.
+Proof.
+  intros cfg st0 s f.
+  destruct (serve_count (S (length s)) cfg (mkF (mkConn st0 false) [] [] []) (N.of_nat (length s)) s)
+    as (a & b & Ha & Hb & Hab).
+  fold (run_stream cfg st0 s) in Ha, Hb. fold f in Ha, Hb.
+  change (filter is_tagged (fs_out f)) with (filter tagged (fs_out f)). fold (ntag (fs_out f)).
+  cbn [fs_starts fs_out length ntag filter] in Ha, Hb. lia.
+Qed.
 
 (* C04 — a continuation request for a buffered literal is written only when the literal is
    synchronising and accepted (at most 4096 bytes); a refusal writes none *)
@@ -38,11 +53,19 @@ Lemma literal_continuation : forall s,
   | SErr _ _ k _ => k = O
   | SNo _ => True
   end.
-Admitted.
+Proof.
+  intros s. unfold s_literal. pose proof (lit_header_conts s) as Hk.
+  destruct (lit_header s) as [[n ns] r k|r|c cl k r]; [|exact I|exact Hk].
+  subst k. destruct (4096 <? n) eqn:L; [reflexivity|].
+  exists n, ns, r. apply N.ltb_ge in L. repeat split; auto.
+Qed.
 
 (* C06 — a string argument is buffered only if its literal is at most 4096 bytes *)
 Lemma literal_buffer_cap : forall s v rest k, s_literal s = SOk v rest k -> (length v <= 4096)%nat.
-Admitted.
+Proof.
+  intros s v rest k H. pose proof (literal_continuation s) as L. rewrite H in L.
+  destruct L as (n & ns & r & _ & Hn & -> & _). rewrite firstn_length. lia.
+Qed.
 
 (* C04/C06 — the fix: a command that refuses a non-synchronising literal, or whose discarded
    line announced one, is the last one read on the connection, and a BYE is sent *)
@@ -53,17 +76,41 @@ Lemma refused_nonsync_closes : forall cfg f total s tag r1 r2 name r3,
   (h_close h = true \/ (snd (discard_line (h_crlf h) (h_rest h)) = true /\ h_cls h <> 0)) ->
   snd (read_command cfg f total s) = None /\
   exists outs, fs_out (fst (read_command cfg f total s)) = OBye :: outs.
-Admitted.
+Proof.
+  intros cfg f total s tag r1 r2 name r3 H1 H2 H3 H4 h Hc.
+  unfold read_command. rewrite H1, H2, H3, H4. cbv zeta. fold h.
+  destruct (discard_line (h_crlf h) (h_rest h)) as [rest ann]. cbn [snd] in Hc.
+  assert (Hcl : h_close h || (ann && negb (h_cls h =? 0)) = true).
+  { destruct Hc as [-> | [-> Hn]]; [reflexivity|]. apply N.eqb_neq in Hn. rewrite Hn. apply orb_true_r. }
+  rewrite Hcl. rewrite orb_true_r. cbn [fst snd fs_out]. split; [reflexivity | eexists; reflexivity].
+Qed.
 
 (* C06 — the serve loop terminates on every input: the fuel given by run_stream is never
    exhausted (more fuel changes nothing) *)
 Lemma serve_fuel_enough : forall k cfg f total s, (length s < k)%nat ->
   serve_bytes k cfg f total s = serve_bytes (S (length s)) cfg f total s.
-Admitted.
+Proof. intros k cfg f total s H. apply serve_fuel_any; lia. Qed.
 
 (* C06 — APPEND above the limit is refused before any octet of the message is consumed and
    without reaching the backend *)
 Lemma append_limit_refused : forall cfg c name s h, bytes_eqb (ascii_upper name) (s2b "APPEND") = true ->
   handle_cmd cfg c name s = h -> h_cls h = 0 ->
   forall m fl d p, In (SAppend m fl d p) (h_calls h) -> N.of_nat (length p) <= APPEND_LIMIT.
-Admitted.
+Proof.
+  intros cfg c name s h Hn Hh _ m fl d p Hin. subst h. apply bytes_eqb_true_iff in Hn.
+  unfold handle_cmd in Hin. rewrite Hn in Hin. cbv zeta in Hin.
+  repeat match type of Hin with context [name_is (s2b "APPEND") ?k] =>
+    let v := eval vm_compute in (name_is (s2b "APPEND") k) in
+    change (name_is (s2b "APPEND") k) with v in Hin end.
+  cbn [orb] in Hin. cbv iota in Hin.
+  repeat match goal with
+  | H : In _ (h_calls (finish _ (SErr _ _ _ _))) |- _ => cbn [finish h_calls In] in H; contradiction
+  | H : In _ (h_calls (finish _ (SNo _))) |- _ => cbn [finish h_calls In] in H; contradiction
+  | H : In _ (h_calls (mkH _ _ _ _ _ _ _)) |- _ => cbn [h_calls] in H
+  | H : In _ [] |- _ => destruct H
+  | H : In _ [_] |- _ => destruct H as [H|[]]; inversion H; subst; clear H
+  | H : In _ (h_calls (match ?x with _ => _ end)) |- _ => destruct x eqn:?
+  | H : In _ (h_calls (if ?b then _ else _)) |- _ => destruct b eqn:?
+  end.
+  all: match goal with H : (APPEND_LIMIT <? _) = false |- _ => apply N.ltb_ge in H; rewrite firstn_length; lia end.
+Qed.
